@@ -13,7 +13,7 @@
 //   sec    the container path of a secret mount ([] none; /sec; /out/s; /out/a/s ...): if it lies below /out and
 //          its parent directory exists, the secret's bytes are really there in the host directory
 // Event: {"ev":"copy","kind":"ok"|"error"|"panic","out":[stream..],"nb":[{"id":..,"segs":[[content id,off,len]..]}]}
-//   out: the manifest returned by Copy; blocks written during the copy get ids 9000+100k+size and are
+//   out: the manifest returned by Copy; blocks written during the copy get ids 7000+100k+size (k < 29) and are
 //   described in nb by the host file contents they hold (content bytes identify file content and offset).
 //
 // Uses the concretiser of C10 (vc10_common, instantiated for this package by checks/C17.py).
@@ -225,10 +225,10 @@ func vC17Run(s *vC17Scenario) (ev vC10Ev) {
 		if _, known := w.byHash[h]; known || len(d) == 0 {
 			continue // identical to a block that already exists (same locator): nothing new to describe
 		}
-		if len(d) > 99 {
-			panic("verif: written block larger than 99 bytes")
+		if len(d) > 99 || k >= 29 {
+			panic("verif: written block larger than 99 bytes, or more than 29 written blocks")
 		}
-		id := 9000 + 100*k + len(d)
+		id := 7000 + 100*k + len(d) // 7000..9899: below 10000 (no hint class), apart from mount blocks, host contents and 99xx ("unknown")
 		w.byHash[h] = id
 		nb = append(nb, vC10Ev{"id": id, "segs": w.segsOfBytes(d)})
 	}
